@@ -118,7 +118,10 @@ def gen_order(rng, n, tier):
                     if x < 0.1:
                         ents.append(f"{idx}:e")
                     elif x < 0.2:
-                        ents.append(f"{idx}:{max(1, nxt - r.choice([1, 2]))}")     # batch of a deposed leader (stale height)
+                        hh = max(1, nxt - r.choice([1, 2]))                       # batch of a deposed leader (stale height)
+                        ents.append(f"{idx}:{hh}")
+                        if hh == nxt:
+                            nxt += 1                                              # (at the very start it is the next height after all)
                         tags.add("entry:stale-height")
                     elif x < 0.25:
                         ents.append(f"{idx}:{nxt + r.choice([1, 3])}")             # future height (never valid)
@@ -139,8 +142,14 @@ def gen_order(rng, n, tier):
             elif k < 0.8:
                 ops.append(f"report-back {r.choice([1, 1, 2, 3])}")          # late / repeated report of an executed height
                 tags.add("report:out-of-order")
-            elif k < 0.9:
+            elif k < 0.86:
                 ops.append("snapshot")
+            elif k < 0.92:
+                # the follower fell behind: raft hands over a snapshot taken by the leader at a later index / height
+                idx += r.choice([1, 2, 5])
+                nxt += r.choice([0, 1, 3])
+                ops.append(f"install {idx} {nxt - 1}")
+                tags.add("install-snapshot")
             else:
                 ops.append("restart")
                 tags.add("restart")
@@ -175,6 +184,14 @@ def mon_order(h, obs):
             for s in ws[1:]:
                 i, hh = s.split(":")
                 log.append((int(i), None if hh == "e" else int(hh)))
+        elif ws[0] == "install" and o.startswith("mint="):
+            # the snapshot stands for committed entries the follower never saw: the chain now reaches the snapshot's height
+            e0 = start
+            for (_, hh) in log:
+                if hh is not None and hh == e0 + 1:
+                    e0 += 1
+            for hh in range(e0 + 1, int(ws[2]) + 1):
+                log.append((int(ws[1]), hh))
         elif ws[0] == "exec":
             if o.startswith("executed="):
                 v = int(o.split("=")[1])
